@@ -60,7 +60,8 @@ contract('gnpy.core.science_utils.NliSolver._gn_analytic', props=['C03'],
          ensures=[('eta', 'forall2(lambda i, j: result[i, j] == g[i] ** 2 * WGT(i, j) * PSIF(si._df[i, j], '
                           'si._baud_rate[i], si._baud_rate[j], b2[i], b2[j], leff[j], 1 / a[j]) / si._baud_rate[j] ** 2, n, n)'),
                   ('non_negative', 'forall2(lambda i, j: result[i, j] >= 0, n, n)')],
-         returns=mat_len('NCH(spectral_info)'), pure=True, modifies=[])
+         returns=mat_len('NCH(spectral_info)'), pure=True, modifies=[],
+         pure_on=['spectral_info._frequency', 'spectral_info._baud_rate', 'spectral_info._df', 'fiber'])
 
 SPEC_NLI = SPEC_GN + '''
 def ETA(si, fiber, i, j):
@@ -84,3 +85,44 @@ contract('gnpy.core.science_utils.NliSolver.compute_nli', props=['C03'],
                   ('non_negative', 'forall(lambda i: result[i] >= 0, n)'),
                   ('one_value_per_channel', 'len(result) == n')],
          use_at_calls=False, modifies=[])
+
+# ---------------------------------------------------------------- scaling laws, on the real compute_nli (two runs)
+# NOT CLAIMED: both VCs stay `unknown` on every back end (the witness-skolemised sum lemmas plus the expanded asinh
+# kernels exceed the solvers' nonlinear reasoning); kept for reference, not registered under C03.
+def SI_SH(own):
+    """two spectra that share every array except the total powers"""
+    f = {}
+    for k in SI_FIELDS:
+        if k == '_number_of_channels':
+            continue
+        b = vec('n', 'str') if k == '_label' else vec('n')
+        f[k] = b if k in own else shared('sh' + k, b)
+    def nch(c, label):
+        from pyvc.vals import SV
+        return SV(c.path.new_dim('n', 1))
+    nch.recipe = ('dim', 'n')
+    f['_number_of_channels'] = nch
+    f['_channel_number'] = shared('sh_chn', vec('n', 'int'))
+    f['_df'] = shared('sh_df', mat('n'))
+    return obj('SpectralInformation', **f)
+
+
+H_TWO = '''
+def nli_two_loads(si1, si2, srs, fiber, k=1):
+    return (NliSolver.compute_nli(si1, srs, fiber), NliSolver.compute_nli(si2, srs, fiber))
+'''
+_REQ_GN = [('inv1', 'INV(si1)'), ('inv2', 'INV(si2)'),
+           ('baud', 'forall(lambda i: si1._baud_rate[i] > 0, NCH(si1))'),
+           ('loss_coef_positive', 'fiber.params._loss_coef[0] > 0'),
+           ('pair_dispersion_nonzero', 'forall2(lambda i, j: fiber.beta2(si1._frequency)[i] + fiber.beta2(si1._frequency)[j] != 0, NCH(si1), NCH(si1))'),
+           ('gamma_nonneg', 'forall(lambda i: fiber.gamma(si1._frequency)[i] >= 0, NCH(si1))')]
+contract('harness:nli_cube_law', harness=H_TWO, module='gnpy.core.science_utils', props=['X03-not-claimed'], overrides=SIMP_OFF,
+         params={'si1': SI_SH({'_pch'}), 'si2': SI_SH({'_pch'}), 'srs': obj('<ns>'), 'fiber': FIBER, 'k': real()}, spec=SPEC_NLI,
+         requires=_REQ_GN + [('factor_positive', 'k > 0'), ('common_power_factor', 'forall(lambda i: si2._pch[i] == k * si1._pch[i], NCH(si1))')],
+         ensures=[('cube_of_the_common_factor', 'forall(lambda i: result[1][i] == k ** 3 * result[0][i], NCH(si1))')],
+         sum_scales=['k ** 3'], modifies=[], inline_callees=['gnpy.core.science_utils.NliSolver.compute_nli'])
+contract('harness:nli_monotone', harness=H_TWO, module='gnpy.core.science_utils', props=['X03-not-claimed'], overrides=SIMP_OFF,
+         params={'si1': SI_SH({'_pch'}), 'si2': SI_SH({'_pch'}), 'srs': obj('<ns>'), 'fiber': FIBER}, spec=SPEC_NLI,
+         requires=_REQ_GN + [('powers_raised', 'forall(lambda i: si2._pch[i] >= si1._pch[i], NCH(si1))')],
+         ensures=[('nli_never_decreases', 'forall(lambda i: result[1][i] >= result[0][i], NCH(si1))')],
+         modifies=[], inline_callees=['gnpy.core.science_utils.NliSolver.compute_nli'])
